@@ -343,7 +343,7 @@ fn context_grammar(ctx: &mut Ctx) {
     let sources = [".", ".l", "^.l", ".ll", ":x", "@m"];
     let wrappers = [
         "(map S H)", "(filter S (= H H))", "(flat_map S (push [] H))", "(fold S 0 H)", "(sort_by S H)", "(map_values .o H)", "(| S H)", "(set \"x\" S H)", "(define \"m\" S H)",
-        "(group_by S (? (number? H) \"n\" \"o\"))", "(first (map S H))",
+        "(group_by S (? (number? H) \"n\" \"o\"))", "(first (map S H))", "(| (| S H) (push [] . ^ ^^))",
     ];
     let leaves = [".", "^", "^^", "^.n", ":x", "@m", "(len .)", "(push [] . ^.n)"];
     let input = "{\"n\": 2, \"l\": [1, [2, 3], \"s\"], \"ll\": [[1], [4, [5]]], \"o\": {\"p\": [1, 2], \"q\": 3}}";
